@@ -72,8 +72,9 @@ CHECKS = {
     'C06': C('4 C06', 'exact LL(1) table obligations (T) + VCs of _token_to_transition and convert_leaf + generated derivations covering every automaton arc (bounded)',
              'T: FIRST-exact transitions, plan chains, no nullable rule, no FOLLOW conflict on all 9 tables; D: token->label; every token '
              'becomes a leaf of the kind of its token type (keyword iff reserved NAME); the push loop of _add_token performs the table '
-             'step; B: one derivation per automaton arc, one per (arc, rule using the arc\'s rule) and one per pair of consecutive '
-             'arcs of a rule, 1 (quick) / 3 (thorough) spellings: strict parse returns the collapsed derivation with the same leaf '
+             'step; B: every spelling used for NAME / NUMBER / STRING is one token of its class; one derivation per automaton arc, one per '
+             '(arc, rule using the arc\'s rule) and one per pair of consecutive arcs of a rule, token spellings rotating through 6 / 14 / 8 '
+             'forms, 1 (quick) / 3 (thorough) layouts: strict parse returns the collapsed derivation with the same leaf '
              'kinds, recovering parse identical',
              'M-LL1 paper lemma; I_stack not discharged'),
     'C07': C('4 C07', 'VCs of what strict mode raises (exception-object postconditions), frame/effect obligations over the real call graph, '
@@ -139,7 +140,8 @@ CHECKS = {
              'save files the module with the lines it is the tree of under this grammar\'s hash, and the memory cache keeps that '
              'invariant (parser / tokenizer / diff parser through assumed contracts stating C01 / C09 / C04); B: all '
              'histories <=3 (quick) over write/touch/back-dated write/parse x3/drop/delete/race x files x grammars x cache dirs + structured 6-step '
-             'histories (incl. two paths whose spellings a lexical normalisation would identify), GC trigger at 600 and 1: tree equals fresh parse of current content',
+             'histories (incl. two paths whose spellings a lexical normalisation would identify, and strict parses through the cache, which must raise '
+                'exactly when an uncached strict parse does), GC trigger at 600 and 1: tree equals fresh parse of current content',
              'that try_to_save_module establishes the representation invariants is not proved (memory: known finding read-then-stat '
              'race; disk: DISK-INV -- a pickled item is the tree of the version at its recorded change_time -- assumed of the writer); '
                 '_get_hashed_path (A-SHA) assumed'),
@@ -151,7 +153,8 @@ CHECKS = {
              'returns normally has written the item to the entry\'s file, whatever was there, and no other file changed (the repair clause); '
              'clear_inactive_cache hands os.remove only files not accessed for the survival time (or the caller\'s threshold) at a clock reading of '
              'the call; _touch opens in append mode only; _remove_cache_and_update_lock touches only the lock path and runs the clean-up with the '
-             'default threshold; B: every truncation offset, 9 corruptions, 288 fault injections, on-disk repair after every corruption, two '
+             'default threshold; B: every truncation offset, 14 corruptions (incl. pickles of incomplete items), clean-up with an entry in use inside '
+             'an old-looking directory, 288 fault injections, on-disk repair after every corruption, two '
              'processes parsing the same files through one cache directory (entries removed under each other; 12 rounds quick, 120 thorough); '
              'thorough: every truncation offset of four modules incl. a source file of the repository, partial overwrites, rotations',
              'the os / pathlib / pickle / time primitives are assumed contracts (ext:...; listed in the evidence); floats of time and stat are '
@@ -159,7 +162,8 @@ CHECKS = {
              'valid pickle are outside the property\'s fault model (no checksum)'),
     'C18': C('4 C18', 'frame (modifies) obligations over the call graph of parse/iter_errors/tokenize; run-time frame monitor (bounded)',
              'D: no reachable function writes a shared object, module global, class attribute or mutable default except two '
-             'write-once memo tables; no ambient reads; B: deep fingerprint of shared state, repeat/history independence, '
+             'write-once memo tables; no ambient reads; no call that changes interpreter-wide state of the standard library (refuted at two '
+             'call sites in the string-literal rule: known finding, warnings filters); B: deep fingerprint of shared state, repeat/history independence, '
              'load orders, 8-thread smoke',
              'M-NI non-interference lemma is a paper argument; schedules are not explored'),
     'C19': C('4 C19', 'VCs of the refactoring visitor against a recursive splice spec function and of the tree constructors (z3); class-table '
